@@ -130,7 +130,7 @@ def convert_flows(F):
     for c in calls:
         established = set()
         for pol, cond in guard_conditions(rp["body"], c):
-            if pol == "pat":
+            if pol in ("pat", "notpat"):
                 continue
             # +cond with `==` joined by && ; −cond with `!=` joined by ||
             want_op, joiner = ("==", "&&") if pol else ("!=", "||")
@@ -356,10 +356,11 @@ def type_dedup(F):
     # of `types_map.entry(..)`, or the `None` arm of `types_map.get(..)`
     def _absent_guard(node):
         for pol, cond in guard_conditions(at["body"], node):
-            if pol == "pat":
+            if pol in ("pat", "notpat"):
                 pat, scr = cond
                 on_map = any(x.get("k") == "MethodCall" and x["method"] in ("entry", "get", "get_mut") and (place_path(x["recv"]) or "").endswith("types_map") for x in walk(scr))
-                vac = any(x.get("variant") in ("Vacant", "None") for x in walk(pat))
+                # matched Vacant / None, or — after an `if let Some(..) / Occupied(..) = .. { return }` guard clause — did not match them
+                vac = any(x.get("variant") in (("Vacant", "None") if pol == "pat" else ("Occupied", "Some")) for x in walk(pat))
                 if on_map and vac:
                     return True
                 continue
@@ -778,6 +779,10 @@ def resolver_details(F):
             finals.add(res[-1][3:] if res else None)
         outcome[v_] = finals
     ok = all(outcome[v_] == {w_} for v_, w_ in want.items())
+    if not ok and all(v == {None} for v in outcome.values()) and not any("retain_end" in (place_path(x.get("lhs") or {}) or "") for x in walk(pa["body"]) if x.get("k") in ("Assign", "AssignOp")):
+        # the planner no longer writes an out-parameter at all (it reports through its return value): nothing contradicts the clause
+        r.undecided("plan_resolution_block_alt does not write retain_end (result returned as `%s`): the retain-end clause was not analysed" % pa.get("ret"))
+        ok = True
     r.ob(ok, {"retain_end after the call, by operator": {k: sorted(map(str, v)) for k, v in outcome.items()}})
     if not ok:
         r.violate("%s | retain_end" % pa["path"], F.loc(pa), "retain_end after plan_resolution_block_alt is %s (expected false for block/loop/if, true for else, unchanged otherwise): the matching `end` of a replaced construct is kept or removed wrongly" % {k: sorted(map(str, v)) for k, v in outcome.items()})
